@@ -11,9 +11,10 @@ def run(ctx):
     R.explanation = "ORD-1 (paired): every order-specific decoder in construct_arguments is selected by the matching `endianness == Big` branch; width discriminants equal the bit widths."
     R.not_decided = ["numeric decoding inside nom (trusted)"]
     lib_ord.check(ctx, [FN] + HELPERS, "ORD-1", paired=(FN,))
-    R.floor("ORD-1", 30)
+    R.floor("ORD-1", 10)
     lib_const.check(ctx, names=set(), rule="CONST", enums=True)
     R.floor("CONST", 7)
+    value_dependent_refusal(ctx)
     from rules import lib_nonverbose
     lib_nonverbose.check(ctx)
     try:
@@ -21,3 +22,31 @@ def run(ctx):
         lib_panic.check(ctx, [FN], None, rule="PANIC")
     except ImportError:
         R.notes.append("PANIC / per-kind rows not built yet")
+
+
+REJECTING = ("nom::combinator::verify", "nom::combinator::map_res", "nom::combinator::map_opt", "nom::combinator::fail", "nom::combinator::not", "nom::combinator::cond",
+             "nom::combinator::all_consuming", "nom::combinator::eof", "nom::combinator::complete")
+
+
+def value_dependent_refusal(ctx):
+    """ERR-V: the numeric field decoders reachable from construct_arguments refuse only for lack of bytes: no nom
+    combinator that can reject a *value* (verify / map_res / map_opt / fail / not / cond ...) is used by them, so every bit
+    pattern of a long-enough field is decoded (NaN and infinities included)."""
+    import re
+    from engine import cfg
+    from rules.lib_call import all_fn_refs
+    from rules.common import loc_of
+    F, R, cg = ctx.facts, ctx.report, ctx.cg
+    reach = sorted(p for p in cg.local_reachable([FN]) if F.body(p) is not None and not F.body(p)["derived"])
+    n = 0
+    for p in reach:
+        if "zero_terminated" in p:
+            continue  # the string helper refuses invalid UTF-8 by design (part of the property)
+        for bi, f, sp, how in all_fn_refs(F.body(p)):
+            path = re.sub(r"::<.*$", "", f["path"])
+            if path.startswith("nom::"):
+                n += 1
+                if path in REJECTING:
+                    fl, ln = loc_of({"sp": sp})
+                    R.violation("ERR-V", "%s|%s" % (p, path), "%s uses %s: a field whose bytes are all present can be refused because of its value; the property allows a refusal only for a short payload or invalid UTF-8" % (p, path), function=p, file=fl, line=ln)
+    R.instance("ERR-V", "%d nom references in %d functions reachable from construct_arguments, none can reject a value" % (n, len(reach)))
